@@ -191,7 +191,8 @@ def answer (kind : String) (tyo : Option Nat) (defs : List Def) (pats : List SPa
 
 def step (_ : Unit) (line : String) : Unit × String :=
   match words line with
-  | "chk" :: _ :: kind :: ty :: "T" :: n :: rest =>
+  | op :: _ :: kind :: ty :: "T" :: n :: rest =>
+    if op != "chk" && op != "chkstd" then ((), "bad-op") else
     let r := do
       let (defs, rest) ← parseN parseDef (← n.toNat?) rest
       match rest with
